@@ -14,9 +14,13 @@ mod c01;
 mod c02;
 mod c05;
 mod c07;
+mod c09;
 mod c10;
+mod c12;
 mod c11expr;
 mod c15;
+mod c16;
+mod c17;
 mod c18;
 
 use std::env;
@@ -37,9 +41,13 @@ fn main() {
         "C02" => c02::run(&mut out, thorough, seed),
         "C05" => c05::run(&mut out, thorough, seed),
         "C07" => c07::run(&mut out, thorough, seed),
+        "C09" => c09::run(&mut out, thorough, seed),
         "C10" => c10::run(&mut out, thorough, seed),
         "C11" => c11expr::run(&mut out, thorough, seed),
+        "C12" => c12::run(&mut out, thorough, seed),
         "C15" => c15::run(&mut out, thorough, seed),
+        "C16" => c16::run(&mut out, thorough, seed),
+        "C17" => c17::run(&mut out, thorough, seed),
         "C18" => c18::run(&mut out, thorough, seed),
         _ => {
             eprintln!("unknown property {}", prop);
